@@ -212,6 +212,13 @@ class EllipseFitter:
                 return Isophote(minimum_amplitude_sample, i + 1, valid=True,
                                 stop_code=1)
 
+            # a zero (or non-finite) gradient cannot drive a correction
+            # (every corrector divides by it, and the resulting
+            # non-finite geometry cannot be sampled): stop here, as
+            # for any other unacceptable gradient.
+            if not sample.gradient or not np.isfinite(sample.gradient):
+                return Isophote(sample, i + 1, valid=True, stop_code=-1)
+
             # pick appropriate corrector code.
             corrector = _CORRECTORS[largest_harmonic_index]
 
